@@ -17,36 +17,45 @@ def axes_to_rotator(z: ArrayLike | None, y: ArrayLike) -> Rotation:
     else:
         z0 = _extract_orthogonal(y0, _normalize(np.atleast_2d(z)))
     z0_trans = rot_y.apply(z0, inverse=True)
-    rot_z = _get_align_rotator([[1, 0, 0]], z0_trans)
+    # z0_trans is orthogonal to the y axis: the second rotation must be around it,
+    # otherwise the y axis aligned by the first rotation is moved again.
+    rot_z = _get_align_rotator([[1, 0, 0]], z0_trans, antiparallel_axis=[0, 1, 0])
     return rot_y * rot_z
 
 
-def _get_align_rotator(src, dst) -> Rotation:
-    """R.apply(src) == dst. Both length must be 1."""
-    if np.all(np.abs(src + dst) < 1e-6):
-        # Cross product cannot be used for antiparallel vectors.
-        dst = np.atleast_2d(dst)
-        # both rotvec_0 and rotvec_1 are orthogonal to dst.
-        rotvec_0 = np.stack([dst[:, 1], -dst[:, 0], np.zeros(dst.shape[0])], axis=1)
-        rotvec_1 = np.stack([dst[:, 2], np.zeros(dst.shape[0]), -dst[:, 0]], axis=1)
-        rotvec = np.where(
-            np.linalg.norm(rotvec_0, axis=1, keepdims=True)
-            > np.linalg.norm(rotvec_1, axis=1, keepdims=True),
-            rotvec_0,
-            rotvec_1,
-        )
-        rotvec /= np.linalg.norm(rotvec, axis=1, keepdims=True)
-        return Rotation.from_rotvec(rotvec * np.pi)
-    elif np.all(np.abs(src - dst) < 1e-6):
-        dst = np.atleast_2d(dst)
-        return Rotation.identity(dst.shape[0])
+def _get_align_rotator(src, dst, antiparallel_axis=None) -> Rotation:
+    """
+    R.apply(src) == dst for every row of dst. ``src`` is a single unit vector.
+
+    Rows antiparallel to src are rotated by 180 degree around ``antiparallel_axis``
+    (must be orthogonal to src) or, if not given, around an axis orthogonal to src.
+    """
+    src = np.atleast_2d(np.asarray(src, dtype=np.float64))
+    dst = np.atleast_2d(dst)
     cross = np.cross(src, dst)
     sin = norm = np.sqrt(np.sum(cross**2, axis=1, keepdims=True))
     cos = np.sum(src * dst, axis=1, keepdims=True)
     theta = np.arctan2(sin, cos)
 
-    norm[norm == 0] = np.inf
-    return Rotation.from_rotvec(cross / norm * theta)
+    norm[norm == 0] = np.inf  # parallel rows: no rotation
+    rotvec = cross / norm * theta
+
+    # Cross product cannot be used for antiparallel vectors.
+    antiparallel = np.all(np.abs(src + dst) < 1e-6, axis=1)
+    if np.any(antiparallel):
+        if antiparallel_axis is not None:
+            axis = np.asarray(antiparallel_axis, dtype=np.float64)
+        else:
+            # both candidates are orthogonal to src.
+            s = src[0]
+            axis_0 = np.array([s[1], -s[0], 0.0])
+            axis_1 = np.array([s[2], 0.0, -s[0]])
+            if np.linalg.norm(axis_0) > np.linalg.norm(axis_1):
+                axis = axis_0
+            else:
+                axis = axis_1
+        rotvec[antiparallel] = axis / np.linalg.norm(axis) * np.pi
+    return Rotation.from_rotvec(rotvec)
 
 
 def from_euler_xyz_coords(
